@@ -674,3 +674,91 @@ def rule_literal_folding(m, rid):
     if n < 2:
         r.error("fewer than 2 consumers of splitquote found")
     return r
+
+
+# ------------------------------------------------------------------------------------------------
+# free-form continuation joining (C12.R6): decision table of the '&' handling at the end of the
+# continuation loop of get_source_item, interpreted from the AST
+# ------------------------------------------------------------------------------------------------
+# (physical line after comment removal, is first line of the statement) -> (text contributed, continues)
+# Fortran 2003 3.3.1.3: '&' as the last nonblank character continues the statement; an '&' that is the first
+# nonblank character of the next line is the optional leading marker and the text starts after it.
+CONTINUATION_TABLE = [
+    ("x = 1", True, "x = 1", False),
+    ("x = 1 + &", True, "x = 1 + ", True),
+    ("x = 1 + &   ", True, "x = 1 + ", True),
+    ("x = 'a&b'", True, "x = 'a&b'", False),
+    ("x = 'a&b' // &", True, "x = 'a&b' // ", True),
+    ("msg = 'R' // &", True, "msg = 'R' // ", True),
+    ("     2", False, "     2", False),
+    ("     2 + &", False, "     2 + ", True),
+    ("   & 2", False, " 2", False),
+    ("& 2", False, " 2", False),
+    ("&2", False, "2", False),
+    ("   & 2 + &", False, " 2 + ", True),
+    ("   & 'A&B'", False, " 'A&B'", False),
+    ("   &p&q'", False, "p&q'", False),
+    ("   & 'A&B' // &", False, " 'A&B' // ", True),
+    ("   'A&B'", False, "   'A&B'", False),
+    ("   'A&B' // &", False, "   'A&B' // ", True),
+    ("'&' // y", False, "'&' // y", False),
+    ("'&' // &", False, "'&' // ", True),
+    ("a&b", False, "a&b", False),
+]
+
+
+def rule_continuation(m, rid):
+    from sa import pureeval as PE
+    r = RuleResult(rid, "free-form continuation joining: a trailing '&' continues, only a FIRST-nonblank '&' is the leading marker, and exactly "
+                        "the text between them is contributed (so '&' inside a literal is never taken for a marker)")
+    r.floor = 15
+    f = reader_func(m, "get_source_item")
+    # the tail of the continuation loop starts at `i = line.rfind("&")` (or whatever searches the trailing marker)
+    loop = tail = None
+    for n in A.body_nodes(f.node):
+        if isinstance(n, ast.While):
+            for idx, s in enumerate(n.body):
+                if isinstance(s, ast.Assign) and isinstance(s.value, ast.Call) and isinstance(s.value.func, ast.Attribute) \
+                        and s.value.func.attr in ("rfind", "find", "rindex", "index") and s.value.args and A.const(s.value.args[0]) == "&" \
+                        and A.text(s.value.func.value) == "line":
+                    if any(isinstance(x, ast.Call) and A.text(x.func) in ("lines_append", "lines.append") for t in n.body[idx:] for x in ast.walk(t)):
+                        loop, tail = n, n.body[idx:]
+    if tail is None:
+        r.error("get_source_item: the '&' handling at the end of the free-form continuation loop was not found (anchor changed)")
+        return r
+    ev = PE.Evaluator({})
+    bad = []
+    try:
+        for text, first, want_text, want_cont in CONTINUATION_TABLE:
+            r.instances += 1
+            lines = [] if first else ["x = 1 + "]
+            n0 = len(lines)
+            env = {"line": text, "lines": lines, "lines_append": lines.append, "get_single_line": lambda: "<next>",
+                   "self": PE.Obj({"linecount": 7}), "endlineno": 0, "startlineno": 0}
+            cont = None
+            try:
+                ev.block(tail, env)
+                cont = env.get("line") == "<next>"
+            except PE._Break:
+                cont = False
+            except PE._Continue:
+                cont = True
+            got = "".join(lines[n0:])
+            ok = got == want_text and cont == want_cont
+            r.ob(ok, "%r (%s line) contributes %r, %s" % (text, "first" if first else "continuation", got, "continues" if cont else "ends")
+                 if r.obligations % 4 == 0 else None)
+            if not ok:
+                bad.append((text, first, got, cont, want_text, want_cont))
+    except PE.Unsupported as err:
+        r.error("get_source_item: cannot interpret the continuation tail statically (%s)" % err)
+        return r
+    except PE.PyRaise as err:
+        r.error("get_source_item: the continuation tail raises %s on a table line" % err.exc_type)
+        return r
+    if bad:
+        text, first, got, cont, wt, wc = bad[0]
+        r.fail("get_source_item|continuation|%s" % ("first" if first else "cont"),
+               "get_source_item: the %s line %r contributes %r and %s; Fortran 3.3.1.3 says %r and %s (%d table rows disagree)"
+               % ("first" if first else "continuation", text, got, "continues" if cont else "ends", wt, "continues" if wc else "ends", len(bad)),
+               m.loc(f, tail[0]))
+    return r
